@@ -23,6 +23,12 @@ P = {
  "C23": ("model_checking", "Ids.tla bit-layout model checked by TLC for all 2^16 hashes + bit-exact comparison with sierradb::id",
          "TLC checks EmbedsHash/FlagPreserves on the 128-bit layout for all hashes x boundary field fillings; tabulated ids compared bit for bit with the real functions; real generator checked for all 2^16 hashes x draws; flag functions on all single-bit patterns/complements/random; routing agreement for all P,B<=64.",
          "2^128 space of the flag functions covered by bit independence + sampling.", "5/C23", "h-topology"),
+ "C17": ("fault_enumeration", "SegFault.tla fault-class model checked by TLC, expanded by the harness to every bit/byte position on real segment files; round trip via SegLog.tla behaviour replay",
+         "TLC enumerates 1056 (header size, length class, compression, fault kind, region) classes with the required outcome 'detected'; the harness corrupts a real 3-record segment at every position of each class (single-bit flips, bursts up to 32 bits, truncations as zero tail and as shortened file) and runs random read, sequential read, iteration, parse_record and Writer::open on every image (3.4e6 images quick); round trip and reopen resumption are checked by replaying SegLog.tla behaviours.",
+         "CRC-32 burst detection is exercised, not derived; middle of payloads larger than 4 KiB is strided.", "5/C17", "h-seglog"),
+ "C18": ("model_checking", "SegLog.tla (writer + read-ahead caches at cell granularity) model-checked by TLC; behaviours with prescribed read results replayed on real Writer/Readers",
+         "TLC explores all operation sequences (append, flush, sync, set_len, compression toggle, reopen, random/sequential read, iteration, header replacement with two long-lived readers) to the depth bound with invariants CursorAtWofs, FlushedIsLog, ReadBelowFlushedExact, NoReadBeyondFlushed; exhaustive-frontier and simulated behaviours are replayed on a real Writer<H> and two long-lived Readers (H=1,8) under five byte layouts that hit every read path, each read compared with the prescribed record identity/header version or absence.",
+         "Operations are replayed sequentially; truncated tails are zero-filled by the harness (model assumption stated in SegLog!SetLen).", "5/C18", "h-seglog"),
 }
 
 NOT_YET = "not yet built in this session (planned: see DESIGN.md section 5); no claim is made"
@@ -30,6 +36,8 @@ NOT_YET = "not yet built in this session (planned: see DESIGN.md section 5); no 
 ENGINES = [
  {"name": "h-topology", "path": "harness/h-topology", "serves_properties": ["C13", "C14", "C23", "C24", "C25"],
   "kind_free_text": "Rust harness linked against /repo: table comparison with TLC output, behaviour replay on TopologyManager, exhaustive function comparison"},
+ {"name": "h-seglog", "path": "harness/h-seglog", "serves_properties": ["C17", "C18"],
+  "kind_free_text": "Rust harness linked against /repo/crates/seglog: SegLog.tla behaviour replay on Writer/Reader, SegFault.tla class expansion to concrete corruptions"},
  {"name": "tlc", "path": "spec", "serves_properties": sorted(P.keys()),
   "kind_free_text": "TLA+ specifications checked with TLC 1.8 (exhaustive + simulation), behaviours/tables exported as JSON"},
 ]
